@@ -59,6 +59,8 @@ type ProgResult struct {
 	SameAs    map[string]string // form -> earlier form with textually identical IR
 	Panics    int
 	NIRFuncs  int
+	CFGFuncs  int // functions compared between the lifted and the naive form
+	CFGDiff   int // ... whose CFG (blocks, preds, succs in order) differs
 	BuildSecs float64
 }
 
@@ -73,8 +75,21 @@ func typecheck(fset *token.FileSet, files []*ast.File) (*types.Package, *types.I
 	return pkg, info, err
 }
 
-func process(name, origin, src string, seed uint64, work string, ncases int, goenv []string) (res ProgResult) {
-	res = ProgResult{Name: name, Seed: seed, Origin: origin, Src: src, Kinds: map[string]map[string]int{}, Unsupp: map[string]int{}}
+// pending: a program whose IR has been serialised and whose ground-truth package has been written
+type pending struct {
+	res   ProgResult
+	vt    strings.Builder
+	cases []Case
+	tb    *Tables
+	tfs   []TestFunc
+	zeros []string
+	ready bool
+}
+
+func prepare(name, origin, src string, seed uint64, work string, ncases int) (pd *pending) {
+	pd = &pending{}
+	pd.res = ProgResult{Name: name, Seed: seed, Origin: origin, Src: src, Kinds: map[string]map[string]int{}, Unsupp: map[string]int{}}
+	res := &pd.res
 	defer func() {
 		if r := recover(); r != nil {
 			res.Status = "ir-build-panicked"
@@ -139,10 +154,11 @@ func process(name, origin, src string, seed uint64, work string, ncases int, goe
 	res.Driver = driver
 
 	// (b) IR in four forms (built first: type ids used by the output parser come from the tables)
-	var vt strings.Builder
-	fmt.Fprintf(&vt, "(* program %s (%s), seed %d *)\n", name, origin, seed)
+	vt := &pd.vt
+	fmt.Fprintf(vt, "(* program %s (%s), seed %d *)\n", name, origin, seed)
 	pfx := name + "_"
 	var zeros []string
+	cfgSigs := map[string]map[string]string{}
 	seenText := map[string]string{}
 	sharedFns := map[string]string{}
 	res.SameAs = map[string]string{}
@@ -172,11 +188,11 @@ func process(name, origin, src string, seed uint64, work string, ncases int, goe
 				zeros = append(zeros, z)
 			}
 		}
-		text := s.Program("prog_X", pfx, sharedFns, &vt)
+		text := s.Program("prog_X", pfx, sharedFns, vt)
 		if prev, ok := seenText[text]; ok {
 			// textually identical IR (after dropping pseudo-instructions): same behaviour, evaluated once
 			res.SameAs[fm.Name] = prev
-			fmt.Fprintf(&vt, "(* %sprog_%s is identical to %sprog_%s *)\n\n", pfx, fm.Name, pfx, prev)
+			fmt.Fprintf(vt, "(* %sprog_%s is identical to %sprog_%s *)\n\n", pfx, fm.Name, pfx, prev)
 		} else {
 			seenText[text] = fm.Name
 			vt.WriteString(strings.Replace(text, "Definition prog_X", "Definition "+pfx+"prog_"+fm.Name, 1))
@@ -187,46 +203,61 @@ func process(name, origin, src string, seed uint64, work string, ncases int, goe
 			res.Unsupp[k] += v
 		}
 		res.NIRFuncs += len(s.funcs)
+		sig := map[string]string{}
+		for _, f := range s.funcs {
+			var sb strings.Builder
+			for _, b := range f.Blocks {
+				fmt.Fprintf(&sb, "%d:", b.Index)
+				for _, p := range b.Preds {
+					fmt.Fprintf(&sb, "p%d", p.Index)
+				}
+				for _, p := range b.Succs {
+					fmt.Fprintf(&sb, "s%d", p.Index)
+				}
+				sb.WriteString(";")
+			}
+			sig[f.String()] = sb.String()
+		}
+		cfgSigs[fm.Name] = sig
+	}
+	for name, a := range cfgSigs["L"] {
+		if b, ok := cfgSigs["N"][name]; ok {
+			res.CFGFuncs++
+			if a != b {
+				res.CFGDiff++
+			}
+		}
 	}
 
-	// (a) ground truth
-	dir := filepath.Join(work, name)
-	hx.WriteFile(filepath.Join(dir, "go.mod"), "module p\n\ngo 1.24\n")
-	hx.WriteFile(filepath.Join(dir, "prog.go"), src)
-	hx.WriteFile(filepath.Join(dir, "driver.go"), driver)
-	t0 := time.Now()
-	cmd := exec.Command("go", "build", "-o", "p.exe", ".")
-	cmd.Dir = dir
-	cmd.Env = goenv
-	if out, err := cmd.CombinedOutput(); err != nil {
-		res.Status, res.Detail = "compile-failed", string(out)
-		return
-	}
-	res.BuildSecs = time.Since(t0).Seconds()
-	ctx, cancel := context.WithTimeout(context.Background(), 20*time.Second)
-	defer cancel()
-	run := exec.CommandContext(ctx, filepath.Join(dir, "p.exe"))
-	var stderr bytes.Buffer
-	run.Stderr = &stderr
-	run.Stdout = &stderr
-	if err := run.Run(); err != nil {
-		res.Status, res.Detail = "run-failed", err.Error()+"\n"+tail(stderr.String(), 2000)
-		return
-	}
-	if err := parseOutput(stderr.String(), cases, tb); err != nil {
+	// (a) ground truth: the program becomes package <name> of the combined module
+	dir := filepath.Join(work, "all", name)
+	hx.WriteFile(filepath.Join(dir, "prog.go"), strings.Replace(src, "package main", "package "+name, 1))
+	drv := strings.Replace(driver, "package main", "package "+name, 1)
+	drv = strings.Replace(drv, "func main() {", "func Main() {", 1)
+	hx.WriteFile(filepath.Join(dir, "driver.go"), drv)
+	pd.cases, pd.tb, pd.tfs, pd.zeros = cases, tb, tfs, zeros
+	pd.ready = true
+	return
+}
+
+// finish parses the output of the compiled program and completes the cases file
+func (pd *pending) finish(output string) {
+	res := &pd.res
+	vt := &pd.vt
+	cases, tb, tfs, zeros := pd.cases, pd.tb, pd.tfs, pd.zeros
+	pfx := res.Name + "_"
+	if err := parseOutput(output, cases, tb); err != nil {
 		res.Status, res.Detail = "run-failed", err.Error()
 		return
 	}
-	os.Remove(filepath.Join(dir, "p.exe"))
-
-	fmt.Fprintf(&vt, "Definition %szeros : list value := [%s].\n\n", pfx, strings.Join(zeros, "; "))
-	fmt.Fprintf(&vt, "Definition %scases : list case := [\n", pfx)
+	fmt.Fprintf(vt, "Definition %szeros : list value := [%s].\n\n", pfx, strings.Join(zeros, "; "))
+	fmt.Fprintf(vt, "Definition %scases : list case := [\n", pfx)
 	for i := range cases {
 		sep := ";"
 		if i == len(cases)-1 {
 			sep = ""
 		}
-		fmt.Fprintf(&vt, "  %s%s\n", cases[i].Coq(), sep)
+		fmt.Fprintf(vt, "  %s%s\n", cases[i].Coq(), sep)
 		if cases[i].Panic != "" {
 			res.Panics++
 		}
@@ -242,8 +273,8 @@ func process(name, origin, src string, seed uint64, work string, ncases int, goe
 		if _, dup := res.SameAs[fm.Name]; dup {
 			continue
 		}
-		fmt.Fprintf(&vt, "Definition %sR_%s := Eval vm_compute in run_form fuel %sprog_%s 0 %szeros %scases.\nPrint %sR_%s.\n", pfx, fm.Name, pfx, fm.Name, pfx, pfx, pfx, fm.Name)
-		fmt.Fprintf(&vt, "Definition %sS_%s := Eval vm_compute in ssa_bad_funcs %sprog_%s.\nPrint %sS_%s.\n", pfx, fm.Name, pfx, fm.Name, pfx, fm.Name)
+		fmt.Fprintf(vt, "Definition %sR_%s := Eval vm_compute in run_form fuel %sprog_%s 0 %szeros %scases.\nPrint %sR_%s.\n", pfx, fm.Name, pfx, fm.Name, pfx, pfx, pfx, fm.Name)
+		fmt.Fprintf(vt, "Definition %sS_%s := Eval vm_compute in ssa_bad_funcs %sprog_%s.\nPrint %sS_%s.\n", pfx, fm.Name, pfx, fm.Name, pfx, fm.Name)
 	}
 	res.VText = vt.String()
 	res.NCases = len(cases)
@@ -251,7 +282,6 @@ func process(name, origin, src string, seed uint64, work string, ncases int, goe
 		res.FuncNames = append(res.FuncNames, tf.Obj.Name())
 	}
 	res.Status = "ok"
-	return
 }
 
 func tail(s string, n int) string {
@@ -300,7 +330,7 @@ func main() {
 		}
 		return
 	}
-	results := make([]ProgResult, len(jobs))
+	pds := make([]*pending, len(jobs))
 	var wg sync.WaitGroup
 	sem := make(chan struct{}, runtime.GOMAXPROCS(0))
 	for i, j := range jobs {
@@ -309,10 +339,88 @@ func main() {
 			defer wg.Done()
 			sem <- struct{}{}
 			defer func() { <-sem }()
-			results[i] = process(j.name, j.origin, j.src, j.seed, *work, *ncases, goenv)
-			results[i].Features = j.feat
+			pds[i] = prepare(j.name, j.origin, j.src, j.seed, *work, *ncases)
+			pds[i].res.Features = j.feat
 		}(i, j)
 	}
 	wg.Wait()
+	// one module, one binary: package per program, selected by the first argument
+	all := filepath.Join(*work, "all")
+	hx.WriteFile(filepath.Join(all, "go.mod"), "module p\n\ngo 1.24\n")
+	exe := filepath.Join(all, "all.exe")
+	for attempt := 0; attempt < 4; attempt++ {
+		var mainSrc strings.Builder
+		mainSrc.WriteString("package main\n\nimport (\n\t\"os\"\n")
+		n := 0
+		for _, pd := range pds {
+			if pd.ready {
+				fmt.Fprintf(&mainSrc, "\t%s \"p/%s\"\n", pd.res.Name, pd.res.Name)
+				n++
+			}
+		}
+		mainSrc.WriteString(")\n\nfunc main() {\n\tswitch os.Args[1] {\n")
+		for _, pd := range pds {
+			if pd.ready {
+				fmt.Fprintf(&mainSrc, "\tcase %q:\n\t\t%s.Main()\n", pd.res.Name, pd.res.Name)
+			}
+		}
+		mainSrc.WriteString("\t}\n}\n")
+		if n == 0 {
+			break
+		}
+		hx.WriteFile(filepath.Join(all, "main.go"), mainSrc.String())
+		cmd := exec.Command("go", "build", "-o", exe, ".")
+		cmd.Dir = all
+		cmd.Env = goenv
+		outb, err := cmd.CombinedOutput()
+		if err == nil {
+			break
+		}
+		// drop the packages the compiler complains about and retry
+		dropped := false
+		for _, pd := range pds {
+			if pd.ready && (strings.Contains(string(outb), "p/"+pd.res.Name+"\n") || strings.Contains(string(outb), pd.res.Name+"/prog.go") || strings.Contains(string(outb), pd.res.Name+"/driver.go")) {
+				pd.ready = false
+				pd.res.Status, pd.res.Detail = "compile-failed", tail(string(outb), 1500)
+				os.RemoveAll(filepath.Join(all, pd.res.Name))
+				dropped = true
+			}
+		}
+		if !dropped {
+			for _, pd := range pds {
+				if pd.ready {
+					pd.ready = false
+					pd.res.Status, pd.res.Detail = "compile-failed", tail(string(outb), 1500)
+				}
+			}
+		}
+	}
+	for i := range pds {
+		if !pds[i].ready {
+			continue
+		}
+		wg.Add(1)
+		go func(pd *pending) {
+			defer wg.Done()
+			sem <- struct{}{}
+			defer func() { <-sem }()
+			ctx, cancel := context.WithTimeout(context.Background(), 30*time.Second)
+			defer cancel()
+			run := exec.CommandContext(ctx, exe, pd.res.Name)
+			var stderr bytes.Buffer
+			run.Stderr = &stderr
+			run.Stdout = &stderr
+			if err := run.Run(); err != nil {
+				pd.res.Status, pd.res.Detail = "run-failed", err.Error()+"\n"+tail(stderr.String(), 2000)
+				return
+			}
+			pd.finish(stderr.String())
+		}(pds[i])
+	}
+	wg.Wait()
+	results := make([]ProgResult, len(pds))
+	for i, pd := range pds {
+		results[i] = pd.res
+	}
 	hx.EmitJSON(*out, results)
 }
